@@ -19,6 +19,8 @@ for r in range(rounds):
             bad += 1
             f = "/tmp/soak_fail_%s_%d.out" % (pid, first + r)
             open(f, "w").write(p.stdout)
+            import shutil
+            shutil.copytree(os.path.join(ev, "replay", pid), "/tmp/soak_fail_%s_%d.replay" % (pid, first + r), dirs_exist_ok=True)
             print("FAIL %s seed=%d rc=%d %.0fs -> %s : %s" % (pid, first + r, p.returncode, time.time() - t, f,
                   [l for l in p.stdout.splitlines() if l.startswith(("VIOLATION", "INCONCLUSIVE"))][:2]), flush=True)
         else:
